@@ -304,7 +304,7 @@ def prefix_conds(path, upto_index):
     """normalised assumptions of the branches taken before event number `upto_index`"""
     out = []
     for e in path.events[:upto_index]:
-        if e['k'] == 'branch' and e['depth'] == 0:
+        if e['k'] == 'branch':      # branches of expanded helpers (depth > 0) count as well
             out.extend(sym.normalise_cond(e['val'], e['cond']))
     return out
 
